@@ -5,7 +5,7 @@ LEVEL = "model_checking"
 
 
 def check(run):
-    mem_common.run_mem(run, ["single", "bulk", "seq", "dma", "hotreg"],
+    mem_common.run_mem(run, ["single", "bulk", "seq", "dma", "hotreg", "cross"],
                        "through Mapper.Read/Write only, from three start states (power-on, LCD off, randomised machine then LCD off): single = every I/O-page address and both sides of every region boundary x values "
                        "(all 256 in thorough), read back at once incl. the mirror; bulk = strided (thorough: every address) sweep of VRAM, WRAM, echo, OAM+unusable, HRAM; seq = random write/read sequences over <=48 addresses; "
                        "dma = FF46 read-back for all 256 values. distinct_nontrivial = distinct (kind, address, value) events")
